@@ -16,7 +16,7 @@ import scipy.sparse as sps
 from pvm.gen import c35_sparse as gs
 
 PROP = "C35"
-N = {"quick": 3000, "thorough": 300000}
+N = {"quick": 3000, "thorough": 150000}
 WORKERS = {"quick": 3, "thorough": 16}
 TIMEOUT = {"quick": 300, "thorough": 3000}
 CASE_TIMEOUT = 30.0
